@@ -40,6 +40,11 @@ def run(prog, tier):
     shared = [o for o in borrow(prog, tier, "C04", {"hmc-posterior-args"}, "fd-probe-inside-bounds",
                                 "a finite-difference probe outside the box evaluates the log-density where it may be undefined (-inf): "
                                 "the estimate is then not an approximation of the gradient") if "finite_diff" in o.construct]
+    # a trajectory that meets a wall is reversible only if the momentum component of every coordinate folded an odd number of times
+    # is reversed (and only those): the reflection clause C07 shares with C04, decided there
+    shared += borrow(prog, tier, "C04", {"hmc-reflect-order"}, "wall-reflection-reverses-momentum",
+                     "the bounded leapfrog must multiply the momentum by the +/-1 factors of the position fold, after the fold: otherwise "
+                     "running the trajectory backwards from its end point does not retrace it")
     anf.reset()
     obs, info = [], []
     obs.extend(shared)
@@ -263,6 +268,10 @@ def _fd_denominator(c, fd):
             ok, why = _positive_multiple(d.value, h, _nonzero_facts(fd, d))
             if not ok:
                 problems.append(f"`{U(d)}`: {why}")
+            # ... and a SMALL multiple of the coordinate's scale on every arm: a difference quotient over a step of order one is not a
+            # derivative (`c * |x| if x != 0 else 1.0` parses as (c|x|) if .. else 1.0)
+            if not _small_step(d.value, h):
+                problems.append(f"`{U(d)}`: the step is not (a literal factor of at most 1e-3) x (a scale) on every arm of its definition")
         # numerator's probe moved by the same h in the same coordinate
         probes = [n for n in ast.walk(fd) if isinstance(n, ast.AugAssign) and isinstance(n.op, ast.Add)
                   and isinstance(n.target, ast.Subscript) and U(n.value) == h]
@@ -360,6 +369,22 @@ def _positive(e, facts):
             if z:
                 fo.add(U(t.left))
         return _positive(e.body, fb) and _positive(e.orelse, fo)
+    return False
+
+
+def _small_step(expr, h):
+    if isinstance(expr, ast.UnaryOp) and isinstance(expr.op, ast.USub):
+        return U(expr.operand) == h or _small_step(expr.operand, h)
+    if isinstance(expr, ast.IfExp):
+        return _small_step(expr.body, h) and _small_step(expr.orelse, h)
+    if isinstance(expr, ast.Constant) and isinstance(expr.value, (int, float)) and not isinstance(expr.value, bool):
+        return 0 < abs(expr.value) <= 1e-3
+    if isinstance(expr, ast.BinOp) and isinstance(expr.op, ast.Mult):
+        return _small_step(expr.left, h) or _small_step(expr.right, h)
+    if isinstance(expr, ast.BinOp) and isinstance(expr.op, ast.Div):
+        return _small_step(expr.left, h)
+    if isinstance(expr, ast.Name) and expr.id == h:
+        return True
     return False
 
 
